@@ -135,6 +135,9 @@ fn run<T: Coords>(case: &Value) -> Option<Vec<(&'static str, Value)>> {
                 let ec = T::dcomps(e);
                 let ans = match kind.as_str() {
                     "seeded" => rng.borrow_mut().chance(pnum, 10),
+                    // refuse the first p questions (the bisection asks depth first, left half first: these are
+                    // the pieces [0, 2^-j]), accept everything after
+                    "first" => answers.borrow().len() as u64 >= pnum,
                     "norm" => ec.iter().map(|x| x * x).sum::<f32>() < eps * eps,
                     // one-sided: only the sign of the first component matters
                     _ => ec[0] > -eps && ec[0] < 1e9,
@@ -310,6 +313,22 @@ pub fn gen(args: &Args, out: &mut dyn Write) {
                 };
                 writeln!(out, "{}", json!({"k": key, "op": "flat", "ty": ty, "C": c, "policy": policy, "den": *rng.pick(&[1i64, 1, 10, 7])})).unwrap();
             }
+        }
+    }
+    // flattening down to the depth bound along the start of the curve, for every segment count up to 9 (depth
+    // bounds 12..14): the first p questions are refused, p around the bound, so that the left-most descent
+    // reaches (or just misses, or overshoots) the deepest level while the output stays small
+    let mut r2 = Rng::new(args.seed ^ 0xF1A7);
+    for segs in 1..=9i64 {
+        let maxdep = 10 + (3 * segs + 1).ilog2() as i64;
+        for (j, p) in [maxdep, maxdep + 1, maxdep - 1, maxdep + 3, 2 * maxdep].into_iter().enumerate() {
+            if !thorough && j >= 3 && segs % 2 == 0 {
+                continue;
+            }
+            let (ty, nc) = if (segs + j as i64) % 3 == 0 { ("vec2", 2) } else { ("f32", 1) };
+            let c: Vec<Vec<i64>> = (0..nc).map(|_| (0..3 * segs + 1).map(|_| r2.range(-10, 10)).collect()).collect();
+            let policy = json!({"kind": "first", "seed": 0, "p": p, "eps": 0.0});
+            writeln!(out, "{}", json!({"k": format!("fd{}-{}-{}", args.seed, segs, j), "op": "flat", "ty": ty, "C": c, "policy": policy, "den": 1})).unwrap();
         }
     }
 }
